@@ -1,9 +1,15 @@
+pub mod maps;
 pub mod stack;
 
 use crate::framework::Engine;
 
 pub fn all() -> Vec<Box<dyn Engine>> {
-    vec![Box::new(stack::StackEngine), Box::new(stack::BStackEngine)]
+    vec![
+        Box::new(stack::StackEngine),
+        Box::new(stack::BStackEngine),
+        Box::new(maps::HmEngine),
+        Box::new(maps::HtEngine),
+    ]
 }
 
 pub fn by_name(name: &str) -> Option<Box<dyn Engine>> {
